@@ -4,7 +4,6 @@
 // Verification hooks (build tag "verif" only): a structural view of the unexported IPP
 // decoder/encoder/handler for the correspondence run of /verif (property C17).
 
-
 package ipp
 
 // VerifAttr is one decoded attribute (ValueType) as plain data.
